@@ -70,6 +70,9 @@ GArray *g_array_append_vals(GArray *array, gconstpointer data, guint len) {
 		}
 	}
 	unsigned char *dst = (unsigned char *)a->pub.data + (size_t)a->pub.len * a->esize;
+#ifdef VERIF_GARRAY_REPLACE
+	if (len == 1) { __CPROVER_array_replace(dst, src); a->pub.len += 1; return array; }
+#endif
 	for (size_t i = 0; i < n; i++) dst[i] = src[i];
 	a->pub.len += len;
 	return array;
